@@ -170,7 +170,8 @@ def c06(tier, seed, case=None):
             'the complete 13 x 14 matrix (requested concrete type S, record type T) x {read_as, iter_shapes_as (with/without '
             'index), read_nth_shape_as for every i, read_shapes_as(path)} against convert_shapes_to_vec_of(read()), over several '
             'files per T (writer output; hand-laid NullShape records; homogeneous foreign-layout files from the reference encoder: unclosed '
-            'rings, absent M blocks, empty parts, trailing bytes); identity/shapetype of every variant; bulk conversion with '
+            'rings, absent M blocks, empty parts, trailing bytes; .shp/.shx pairs on disk with permuted and padded indexes, typed against '
+            'generic through every path route); identity/shapetype of every variant; bulk conversion with '
             'the odd shape at every position. distinct = (S, T, api) cells + (S, T, len, pos) bulk cases; all non-trivial',
             exhaustive=True)
     import os
@@ -179,12 +180,17 @@ def c06(tier, seed, case=None):
     gen_dir = os.path.join(OUT, 'C06', tier, 'foreign')
     _rmtree(gen_dir)
     gen_c03.generate(gen_dir, seed, 40 if tier == 'quick' else 400)
+    import gen_c14
+    idx_dir = os.path.join(OUT, 'C06', tier, 'indexed')
+    _rmtree(idx_dir)
+    gen_c14.generate(idx_dir, seed, 4)
     for prof in _profiles(tier):
-        v.add_run(run_engine('C06', 'c06', prof, tier, seed, opts={'foreign': gen_dir}, case=case))
+        v.add_run(run_engine('C06', 'c06', prof, tier, seed, opts={'foreign': gen_dir, 'indexed': idx_dir}, case=case))
     if tier == 'thorough' and not case:
         v.add_run(run_miri('C06', 'c06', tier, seed, shards=8))
     if not v.violations:
         _rmtree(gen_dir)
+        _rmtree(idx_dir)
     v.extra['exhaustive_scope'] = 'the (S,T) type matrix and the 14 variants are enumerated completely; shapes inside the files are sampled'
     return v
 
@@ -259,7 +265,8 @@ def c09(tier, seed, case=None):
     n = 6 if tier == 'quick' else 9
     v = _mk('C09', tier, seed, 'exploration',
             'ALL words over {write a, write b, finalize} of length <= %d, for each of the 13 types (a, b of different sizes), with and '
-            'without an index destination, three endings (drop; finalize then drop; consumption by write_shapes([a,b])); after every '
+            'without an index destination, four endings (drop; finalize then drop; consumption by write_shapes([a,b]); drop while a panic '
+            'of the caller unwinds); after every '
             'finalize the images and op logs of the instrumented destinations are inspected (complete file, last op is a flush, no I/O '
             'when nothing is new); final bytes are compared with the reference history "same writes, then drop"; a sample of the words '
             'also runs through from_path with the files read back while the writer is alive. distinct = histories (type, index, word, '
@@ -268,7 +275,7 @@ def c09(tier, seed, case=None):
         v.add_run(run_engine('C09', 'c09', prof, tier, seed, case=case))
     if tier == 'thorough' and not case:
         v.add_run(run_miri('C09', 'c09', tier, seed, shards=16))
-    v.extra['exhaustive_scope'] = 'all words of length <= %d over {Wa, Wb, F} x 13 types x {index, no index} x 3 endings; shapes a, b are fixed per type' % n
+    v.extra['exhaustive_scope'] = 'all words of length <= %d over {Wa, Wb, F} x 13 types x {index, no index} x 4 endings; shapes a, b are fixed per type' % n
     return v
 
 
@@ -379,7 +386,8 @@ def c15(tier, seed, case=None):
             'ALL words of length <= %d over {iterate 0/1/2/all items, read_nth_shape(i) i=0..3, seek(k) k=0..3, shape_count} on a '
             'ShapeReader with index, <= %d over {iterate 0/1/2/all} without index, <= %d over {iterate.., seek(k), shape_count} on the '
             'complete Reader (rows carry their index), each on a file of 3 records of pairwise different sizes and on one of equal '
-            'sizes, each once through the generic API and once through the typed variants (iter_shapes_as, read_nth_shape_as, '
+            'sizes; the same alphabets on readers WITHOUT index (ShapeReader and complete Reader), where seek / read_nth_shape / shape_count '
+            'must fail and leave shapes and rows where they were; each once through the generic API and once through the typed variants (iter_shapes_as, read_nth_shape_as, '
             'iter_shapes_and_records_as; one letter shorter in the thorough tier); every call is judged by a reference model whose state is the set of start positions the property allows for the '
             'next iteration. distinct = (reader kind, file, word); all non-trivial' % n, exhaustive=True)
     for prof in _profiles(tier):
@@ -407,11 +415,19 @@ def c16(tier, seed, case=None):
 def c18(tier, seed, case=None):
     v = _mk('C18', tier, seed, 'exploration',
             'dense grid parts 1..8 x points-per-part 1..8 for the nine multipart types, n = 1..64 for the multipoints, the three '
-            'points, plus random larger shapes; for each: size_in_bytes() vs bytes emitted by write_to() vs the whitepaper closed '
+            'points, plus random larger shapes, uniform-measure variants, polygons converted from polylines (open rings) and shapes decoded '
+            'from foreign-layout files; for each: size_in_bytes() vs bytes emitted by write_to() vs the whitepaper closed '
             'form vs the record header the writer stores. distinct = (type, parts, part lengths); non-trivial = >= 2 parts or >= 2 points',
             exhaustive=True)
+    import os
+    import gen_c03
+    from driver import OUT
+    gen_dir = os.path.join(OUT, 'C18', tier, 'foreign')
+    _rmtree(gen_dir)
+    gen_c03.generate(gen_dir, seed, 30 if tier == 'quick' else 300)
     for prof in _profiles(tier):
-        v.add_run(run_engine('C18', 'c18', prof, tier, seed, case=case))
+        v.add_run(run_engine('C18', 'c18', prof, tier, seed, opts={'foreign': gen_dir}, case=case))
+    _rmtree(gen_dir)
     v.extra['exhaustive_scope'] = 'the (parts, points-per-part) grid is enumerated completely; coordinates and the larger shapes are sampled'
     return v
 
